@@ -5,4 +5,14 @@ CLAIMED = {
          "Trusts the bit-mask model; universe is small (8/5 clocks enumerated, 64 clocks random); document delete sets are compared with the block store through hook store_blocks.",
          "exhaustive small-scope enumeration + proptest model-based random sequences",
          "DESIGN.md section 4, C16"),
+ "C01": ("exploration",
+         "Generated multi-replica histories (every op kind, nesting, GC/offset configs, distinct client ids) followed by per-receiver generated delivery schedules (permutation, duplication, merge in transit, diff_updates, v1/v2 per delivery; every permutation when <=5 updates); oracle = nothing pending, state vector = join, canonical dump equal to a reference replica that applied the updates in emission order. Sampling of an unbounded space with shrinking; sizes are small.",
+         "Equality is the canonical dump through the public read API; strict clause uses cleanup_formatting=false replicas (a replica with automatic format clean-up makes changes of its own); embed/format values are JSON-representable (lib0 v1 carries them as JSON text).",
+         "proptest stateful histories x schedules, metamorphic oracle (any schedule == emission order)",
+         "DESIGN.md section 4, C01"),
+ "C03": ("exploration",
+         "Model-based testing: generated API programs on one replica (all listed calls on root and nested types, arbitrary transaction grouping, both offset kinds, gc on/off, clean-up on/off) compared after every call and every commit with a reference model (string-with-attributes / vector / dictionary / tree).",
+         "Trusts the reference model (validated against the rustdoc contract); arguments in range and on character boundaries; embeds are non-strings.",
+         "proptest model-based (reference model) testing with shrinking",
+         "DESIGN.md section 4, C03"),
 }
